@@ -129,7 +129,11 @@ JudgeStmt(c, i, bytes, off, cgb) ==
       IsJmpDev == /\ s.k = "br" /\ (s.tgt.t = "n" \/ s.tgt.nm \in DOMAIN c.sym)
                   /\ c.psz[i] = GoskJmpEstimateT(s.mn, bits, s.tgt.t = "n")
                   /\ bytes = GoskBranchBytes(s.mn, c.org + off, IF s.tgt.t = "n" THEN s.tgt.v ELSE c.sym[s.tgt.nm] + s.tgt.add, cgb)
-      size == IF Len(bytes) # c.psz[i] THEN {Mk(<<"C03">>, "pass-1 size differs from emitted length")} ELSE {}
+      size == IF Len(bytes) # c.psz[i]
+              THEN {[Mk(<<"C03">>, "pass-1 size differs from emitted length")
+                     EXCEPT !.dev = IF s.k = "ins" /\ cgb # bits /\ cgb = c.bits /\ OpsDefined(s.ops, env)
+                                       /\ (Denotes(bytes, s, cgb, V) \/ Dev66(bytes, s, cgb, V)) THEN "D_BitsGlobal" ELSE ""]}
+              ELSE {}
   IN
   CASE s.k = "data" ->
          IF ~ItemsDefined(s.items, env) THEN {Mk(<<"C07">>, "undefined symbol in data assembled silently")}
@@ -151,7 +155,9 @@ JudgeStmt(c, i, bytes, off, cgb) ==
               THEN {[Mk(IF cgb # bits /\ cgb \in {16, 32} /\ Denotes(bytes, s, cgb, V) THEN <<"C17">>
                         ELSE IF HasMem(s.ops) THEN <<"C01", "C02">> ELSE <<"C01">>,
                         "bytes do not denote the source instruction")
-                     EXCEPT !.dev = IF Dev66(bytes, s, bits, V) THEN "D_Prefix66" ELSE ""]} \cup size
+                     EXCEPT !.dev = IF cgb # bits /\ cgb = c.bits /\ (Denotes(bytes, s, cgb, V) \/ Dev66(bytes, s, cgb, V))
+                                    THEN "D_BitsGlobal"     \* everything is emitted in the LAST mode of the file
+                                    ELSE IF Dev66(bytes, s, bits, V) THEN "D_Prefix66" ELSE ""]} \cup size
               ELSE size \cup (IF MinLen(s, bits, V) > 0 /\ Len(bytes) > MinLen(s, bits, V)
                               THEN {[Mk(<<"C18">>, "longer than the shortest valid encoding")
                                      EXCEPT !.dev = IF Dev66(bytes, s, bits, V) THEN "D_Prefix66" ELSE ""]} ELSE {})
